@@ -72,6 +72,7 @@ static void* worker_main(void* arg) {
         auto& L = *g_locks[li];
         int mode = r.chance(7, 10) ? RLOCK : WLOCK;
         int how = r.below(10);
+        if (L.q && r.chance(1, 2)) how = 9;     // qrwlock: its lock-free try-lock paths are the interesting ones, hammer them
         vh::event();
         int ret;
         if (how < 3) {
